@@ -1154,6 +1154,8 @@ enum Gaps {
     IdleAny,
     /// Exactly one idle gap, the others from {nothing, request}.
     IdleOne,
+    /// Two schedules only: no request at all, or a request in every gap.
+    Ends,
     /// Every gap from {nothing, request}; after the last notification nothing or a request,
     /// then 1.1 s without any message before the observation (the fresh server gets the
     /// final texts, then the same 1.1 s): what a client sees once the server has settled.
@@ -1167,6 +1169,7 @@ impl Gaps {
             Gaps::IdleAny => "idle-any",
             Gaps::IdleOne => "idle-one",
             Gaps::Settle => "settle",
+            Gaps::Ends => "ends",
         }
     }
     fn parse(s: &str) -> Gaps {
@@ -1174,6 +1177,7 @@ impl Gaps {
             "idle-any" => Gaps::IdleAny,
             "idle-one" => Gaps::IdleOne,
             "settle" => Gaps::Settle,
+            "ends" => Gaps::Ends,
             _ => Gaps::Plain,
         }
     }
@@ -1191,6 +1195,9 @@ impl Gaps {
             return out;
         }
         let gaps = d.saturating_sub(1);
+        if *self == Gaps::Ends {
+            return if gaps == 0 { vec![vec![]] } else { vec![vec![Gap::None; gaps], vec![Gap::Sync; gaps]] };
+        }
         let menu = [Gap::None, Gap::Sync, Gap::Idle];
         let k = if *self == Gaps::Plain { 2 } else { 3 };
         let mut out = Vec::new();
@@ -1205,7 +1212,7 @@ impl Gaps {
                 Gaps::Plain => true,
                 Gaps::IdleAny => idles >= 1,
                 Gaps::IdleOne => idles == 1,
-                Gaps::Settle => unreachable!(),
+                Gaps::Settle | Gaps::Ends => unreachable!(),
             };
             if keep {
                 out.push(s);
@@ -1330,6 +1337,7 @@ fn phase_b(d: usize, disks: &[usize], gaps: Gaps) -> Phase {
         Gaps::IdleAny => "request / nothing / idle 1.1 s between them, at least one idle".to_owned(),
         Gaps::IdleOne => "exactly one idle 1.1 s between them, else request / nothing".to_owned(),
         Gaps::Settle => "a request or nothing between them and after the last one, then 1.1 s of silence before the observation".to_owned(),
+        Gaps::Ends => "no request at all / a request in every gap".to_owned(),
     };
     Phase::new(
         &format!("(b) histories of {d} notifications, {what}, disk {}", names.join(" ")),
@@ -1376,6 +1384,44 @@ impl C15 {
         let alpha = alphabet();
         let mut ctx = Ctx::default();
         let mut idx = 0u64;
+        if phase.param["pattern"] == "reopen" {
+            // open, range edit, close, open (any text), range edit - on each file in turn
+            for disk in disks.iter().map(|i| DISKS[*i]) {
+                for f in [MAIN, MOD] {
+                    for t1 in menu(f) {
+                        for e1 in edits(f) {
+                            for t2 in menu(f) {
+                                for e2 in edits(f) {
+                                    if sink.expired() {
+                                        return;
+                                    }
+                                    if sink.mine(idx) {
+                                        let notes = vec![
+                                            Step::Open(f, (*t1).to_owned()),
+                                            Step::Incr(f, e1.range, e1.text.to_owned(), e1.name.to_owned()),
+                                            Step::Close(f),
+                                            Step::Open(f, (*t2).to_owned()),
+                                            Step::Incr(f, e2.range, e2.text.to_owned(), e2.name.to_owned()),
+                                        ];
+                                        sink.visit(
+                                            idx,
+                                            || case_json(disk, &notes, gaps),
+                                            |s| {
+                                                let o = check_case(&mut ctx, disk, &notes, gaps);
+                                                ctx.flush(s);
+                                                o
+                                            },
+                                        );
+                                    }
+                                    idx += 1;
+                                }
+                            }
+                        }
+                    }
+                }
+            }
+            return;
+        }
         for disk in disks.iter().map(|i| DISKS[*i]) {
             for_each_history(&alpha, d, &mut |path| {
                 if sink.expired() {
@@ -1423,6 +1469,10 @@ impl Engine for C15 {
         v.push(phase_b(3, &[0], Gaps::Plain));
         v.push(phase_b(3, &[1], Gaps::Plain));
         v.push(phase_b(1, &all, Gaps::Settle));
+        v.push(Phase::new(
+            "(b) histories open - range edit - close - open - range edit of one file (every text and edit of the menus), no request at all / a request in every gap, disk ok/ok",
+            json!({"part": "b", "d": 5, "disks": [0], "gaps": "ends", "pattern": "reopen"}),
+        ));
         if tier == Tier::Thorough {
             v.push(phase_b(3, &[2], Gaps::Plain));
             v.push(phase_b(2, &all, Gaps::Settle));
@@ -1493,7 +1543,7 @@ impl Engine for C15 {
     fn budget_s(&self, tier: Tier) -> u64 {
         match tier {
             Tier::Quick => 75,
-            Tier::Thorough => 1500,
+            Tier::Thorough => 3000,
         }
     }
     fn case_budget_ms(&self) -> u64 {
